@@ -500,3 +500,37 @@ def ntxt(e: ast.AST) -> str:
 
 _OPSYM = {ast.Sub: '-', ast.Div: '/', ast.FloorDiv: '//', ast.Mod: '%', ast.Pow: '**', ast.LShift: '<<', ast.RShift: '>>',
           ast.BitAnd: '&', ast.BitOr: '|', ast.BitXor: '^', ast.MatMult: '@'}
+
+
+def atxt(ff: FuncFlow, e: ast.AST, depth: int = 4) -> str:
+  """Text of e with every name that is a plain copy of another name (a = b) replaced by the name it copies."""
+  import copy as _copy
+
+  def origin(n: ast.Name, d: int) -> str:
+    if d == 0:
+      return n.id
+    try:
+      ds = [x for x in ff.defs_for(n)]
+    except Exception:  # pylint: disable=broad-except
+      return n.id
+    if len(ds) == 1 and ds[0].kind == 'assign' and ds[0].index is None and isinstance(ds[0].value, ast.Name):
+      return origin(ds[0].value, d - 1)
+    return n.id
+
+  class T(ast.NodeTransformer):
+    def visit_Name(self, node):
+      if isinstance(node.ctx, ast.Load):
+        o = origin(node, depth)
+        if o != node.id:
+          return ast.copy_location(ast.Name(id=o, ctx=node.ctx), node)
+      return node
+  # names inside e must keep their identity for defs_for: compute the mapping first on the original nodes
+  mapping = {}
+  for x in ast.walk(e):
+    if isinstance(x, ast.Name) and isinstance(x.ctx, ast.Load):
+      mapping[id(x)] = origin(x, depth)
+  e2 = _copy.deepcopy(e)
+  for x_old, x_new in zip(ast.walk(e), ast.walk(e2)):
+    if isinstance(x_old, ast.Name) and id(x_old) in mapping:
+      x_new.id = mapping[id(x_old)]
+  return txt(e2)
